@@ -66,7 +66,7 @@ public:
   }
 
   LieGroup getTargetState() const;
-  void setTargetState(const LieGroup& target_state) const;
+  void setTargetState(const LieGroup& target_state);
 
   inline void weight(const double weight) { weight_ = weight; }
   inline double weight() const noexcept { return weight_; }
@@ -86,7 +86,7 @@ CeresObjectiveFunctor<_LieGroup>::getTargetState() const
 
 template <typename _LieGroup>
 void CeresObjectiveFunctor<_LieGroup>::setTargetState(
-    const LieGroup& target_state) const
+    const LieGroup& target_state)
 {
   target_state_ = target_state;
 }
